@@ -365,6 +365,9 @@ impl WorldLoader {
   fn record(&self, specifier: &ModuleSpecifier, o: &LoadOptions, ec: bool) {
     let mut log = self.log.borrow_mut();
     let seq = log.len();
+    if std::env::var("VP_TRACE").is_ok() && seq < 40 {
+      eprintln!("load#{seq} {specifier} cache={:?} asset={ec} dyn={}", o.cache_setting, o.in_dynamic_branch);
+    }
     log.push(LoadCall {
       seq,
       spec: specifier.to_string(),
@@ -539,7 +542,15 @@ impl Resolver for TableResolver {
     specifier: &ModuleSpecifier,
   ) -> Result<Option<(ModuleSpecifier, Option<Range>)>, ResolveError> {
     if self.level >= 2 && specifier.as_str() == "file:///c.js" {
-      return Ok(Some((Url::parse("file:///f.d.ts").unwrap(), None)));
+      // like real resolvers, name the place the information came from
+      return Ok(Some((
+        Url::parse("file:///f.d.ts").unwrap(),
+        Some(Range {
+          specifier: specifier.clone(),
+          range: deno_graph::PositionRange::zeroed(),
+          resolution_mode: None,
+        }),
+      )));
     }
     Ok(None)
   }
@@ -614,6 +625,8 @@ pub struct DriveStats {
   pub contested: usize,
   pub max_outstanding: usize,
   pub deadlock: bool,
+  /// number of outstanding gates at every decision point
+  pub options: Vec<usize>,
 }
 
 fn noop_waker() -> Waker {
@@ -653,6 +666,7 @@ pub fn drive<F: Future>(
       continue;
     }
     stats.max_outstanding = stats.max_outstanding.max(out.len());
+    stats.options.push(out.len());
     if out.len() >= 2 {
       stats.contested += 1;
     }
